@@ -6,6 +6,12 @@
 //!   cart <id> <bytes token>
 //!   eart <key hex> <addr>[,<addr>...]   (`-` for none)   addr =
 //!        r:<hex of url string> | 4:<ip hex>:<port> | 6:<ip hex>:<port>:<flow>:<scope> | c:<id>:<data hex or ->
+//!   vsign <sk hex> <msg token> <verified msg token> <key> <flip>
+//!        sign <msg> with SecretKey <sk>, optionally flip bit <flip> (`-` = none) of the signature,
+//!        verify <verified msg> under <key> = `=` (the public key of <sk>) | s:<other sk hex> |
+//!        k:<key bytes hex>.  honest <=> same message, same key bytes, no flipped bit.
+//!   vraw <key bytes hex> <msg token> <signature hex (64 bytes)>
+//!        a signature NOT produced by signing (crafted); never honest.
 use std::{
     collections::BTreeSet,
     net::{Ipv4Addr, Ipv6Addr, SocketAddr, SocketAddrV4, SocketAddrV6},
@@ -503,6 +509,60 @@ fn run(raw: &str) -> (String, String) {
             };
             (format!("(C02.OpEaPostcard {})", tok.coq()), o)
         }
+        "vsign" | "vraw" => {
+            let p: Vec<&str> = rest.split(' ').collect();
+            let (k, m, sg, honest): (Vec<u8>, Bytes, [u8; 64], bool) = if op == "vsign" {
+                assert!(p.len() == 5, "vsign sk msg vmsg key flip");
+                let sk: [u8; 32] = unhex(p[0]).try_into().expect("32-byte secret");
+                let sk = SecretKey::from_bytes(&sk);
+                let pk = sk.public().as_bytes().to_vec();
+                let msg = Bytes::parse(p[1]);
+                let vmsg = Bytes::parse(p[2]);
+                let mut sg = sk.sign(&msg.to_vec()).to_bytes();
+                let k = match p[3] {
+                    "=" => pk.clone(),
+                    t if t.starts_with("s:") => {
+                        let o: [u8; 32] = unhex(&t[2..]).try_into().expect("32-byte secret");
+                        SecretKey::from_bytes(&o).public().as_bytes().to_vec()
+                    }
+                    t => unhex(t.strip_prefix("k:").expect("key")),
+                };
+                let flipped = match p[4] {
+                    "-" => false,
+                    b => {
+                        let b: usize = b.parse().unwrap();
+                        sg[(b / 8) % 64] ^= 1 << (b % 8);
+                        true
+                    }
+                };
+                let honest = !flipped && k == pk && vmsg.to_vec() == msg.to_vec();
+                (k, vmsg, sg, honest)
+            } else {
+                assert!(p.len() == 3, "vraw key msg sig");
+                let sg: [u8; 64] = unhex(p[2]).try_into().expect("64-byte signature");
+                (unhex(p[0]), Bytes::parse(p[1]), sg, false)
+            };
+            orc.point(&k);
+            // The verification oracle entry of the input: what the property demands of strict
+            // verification for this (key, message, signature).
+            let vo = honest;
+            let mv = m.to_vec();
+            (
+                format!(
+                    "(C02.OpVerify {} {} {} {} {})",
+                    coq_hex(&k),
+                    m.coq(),
+                    coq_hex(&sg),
+                    coq_bool(honest),
+                    coq_bool(vo)
+                ),
+                out_bytes(catch(|| {
+                    let pk = PublicKey::try_from(&k[..]).map_err(|e| key_err(&e))?;
+                    let sig = Signature::from_bytes(&sg);
+                    Ok(vec![rb(|| Ok(vec![pk.verify(&mv, &sig).is_ok() as u8]))])
+                })),
+            )
+        }
         _ => panic!("unknown op {op}"),
     };
     let (pts, urls) = orc.coq();
@@ -751,9 +811,147 @@ fn custom_len(rng: &mut Rng) -> usize {
     }
 }
 
+// ------------------------------------------------------------------ sign / verify inputs
+
+/// The group order L, little endian.
+const ORDER_L: [u8; 32] = [
+    0xed, 0xd3, 0xf5, 0x5c, 0x1a, 0x63, 0x12, 0x58, 0xd6, 0x9c, 0xf7, 0xa2, 0xde, 0xf9, 0xde, 0x14,
+    0, 0, 0, 0, 0, 0, 0, 0, 0, 0, 0, 0, 0, 0, 0, 0x10,
+];
+
+fn add_le(a: &[u8], b: &[u8; 32]) -> [u8; 32] {
+    let mut out = [0u8; 32];
+    let mut c = 0u16;
+    for i in 0..32 {
+        let v = a[i] as u16 + b[i] as u16 + c;
+        out[i] = v as u8;
+        c = v >> 8;
+    }
+    out
+}
+
+/// The canonical encodings of the 8 points of small order.
+fn torsion(i: u64) -> [u8; 32] {
+    curve25519_dalek::constants::EIGHT_TORSION[(i % 8) as usize].compress().to_bytes()
+}
+
+/// A point of small order: canonical encoding, or one of the non-canonical encodings that
+/// decompress accepts (y = p + 1 for the identity, identity with the sign bit, y = p for y = 0).
+fn small_order(rng: &mut Rng) -> [u8; 32] {
+    match rng.below(12) {
+        0 => { let mut b = [0xffu8; 32]; b[0] = 0xee; b[31] = 0x7f; b }
+        1 => { let mut b = [0u8; 32]; b[0] = 1; b[31] = 0x80; b }
+        2 => { let mut b = [0xffu8; 32]; b[0] = 0xed; b[31] = 0x7f; b }
+        3 => { let mut b = [0xffu8; 32]; b[0] = 0xed; b }
+        _ => torsion(rng.below(8)),
+    }
+}
+
+/// The public key of a random secret plus a point of small order (mixed order).
+fn mixed_order(rng: &mut Rng) -> [u8; 32] {
+    let sk: [u8; 32] = rng.bytes(32).try_into().unwrap();
+    let pk = *SecretKey::from_bytes(&sk).public().as_bytes();
+    let p = CompressedEdwardsY(pk).decompress().unwrap();
+    let t = curve25519_dalek::constants::EIGHT_TORSION[rng.range(1, 7) as usize];
+    (p + t).compress().to_bytes()
+}
+
+fn message(rng: &mut Rng) -> Bytes {
+    let n = match rng.below(8) {
+        0 => 0,
+        1 => 1,
+        2 => 32,
+        3 => 64,
+        4 => rng.range(65, 300) as usize,
+        _ => rng.range(2, 40) as usize,
+    };
+    Bytes::random(rng, n)
+}
+
+/// honest signatures, and the same signature for another message / under another key / changed
+fn gen_vsign(rng: &mut Rng) -> String {
+    let sk = rng.bytes(32);
+    let msg = message(rng);
+    let mut vmsg = msg.raw();
+    let mut key = "=".to_string();
+    let mut flip = "-".to_string();
+    match rng.below(10) {
+        0 | 1 | 2 | 3 => {}
+        4 | 5 => {
+            // another message: one bit changed, one byte more, one byte less, empty, unrelated
+            let mut m = msg.to_vec();
+            match rng.below(5) {
+                0 if !m.is_empty() => { let i = rng.below(m.len() as u64) as usize; m[i] ^= 1 << rng.below(8); }
+                1 => m.push(rng.below(256) as u8),
+                2 if !m.is_empty() => { m.pop(); }
+                3 if !m.is_empty() => m.clear(),
+                _ => m = message(rng).to_vec(),
+            }
+            vmsg = Bytes::Hex(m).raw();
+        }
+        6 | 7 => {
+            // another key: of another secret, a special point, small order, mixed order, random bytes
+            key = match rng.below(6) {
+                0 | 1 => format!("s:{}", hex(&rng.bytes(32))),
+                2 => format!("k:{}", hex(&valid_key(rng))),
+                3 => format!("k:{}", hex(&small_order(rng))),
+                4 => format!("k:{}", hex(&mixed_order(rng))),
+                _ => format!("k:{}", hex(&rng.bytes(32))),
+            };
+        }
+        _ => {
+            // one bit of the signature changed (R: 0..255, S: 256..511)
+            flip = match rng.below(3) {
+                0 => *rng.pick(&[0u64, 7, 248, 255, 256, 263, 504, 508, 509, 510, 511]),
+                _ => rng.below(512),
+            }
+            .to_string();
+        }
+    }
+    format!("vsign {} {} {} {} {}", hex(&sk), msg.raw(), vmsg, key, flip)
+}
+
+/// crafted signatures, which strict verification rejects for every message
+fn gen_vraw(rng: &mut Rng) -> String {
+    let sk: [u8; 32] = rng.bytes(32).try_into().unwrap();
+    let sk = SecretKey::from_bytes(&sk);
+    let msg = message(rng);
+    let real = sk.sign(&msg.to_vec()).to_bytes();
+    let key: [u8; 32] = match rng.below(10) {
+        0..=4 => torsion(rng.below(8)),
+        5 => small_order(rng),
+        6 | 7 => mixed_order(rng),
+        _ => *sk.public().as_bytes(),
+    };
+    let honest_key = key == *sk.public().as_bytes();
+    let identity = torsion(0);
+    let mut r: [u8; 32] = match rng.below(10) {
+        0..=3 => identity,
+        4..=6 => torsion(rng.below(8)),
+        7 => small_order(rng),
+        8 => key,
+        _ => real[..32].try_into().unwrap(),
+    };
+    let s: [u8; 32] = match rng.below(10) {
+        0..=4 => [0u8; 32],
+        5 => ORDER_L,                       // non-canonical 0
+        6 => add_le(&real[32..], &ORDER_L), // the real S + L
+        7 => { let mut s: [u8; 32] = rng.bytes(32).try_into().unwrap(); s[31] |= *rng.pick(&[0x80u8, 0x40, 0x20, 0xf0]); s }
+        8 => { let mut s = [0u8; 32]; s[0] = rng.range(1, 8) as u8; s }
+        _ => real[32..].try_into().unwrap(),
+    };
+    // never hand over the genuine signature under the genuine key as "crafted"
+    if honest_key && r[..] == real[..32] && s[..] == real[32..] {
+        r = identity;
+    }
+    let mut sg = r.to_vec();
+    sg.extend_from_slice(&s);
+    format!("vraw {} {} {}", hex(&key), msg.raw(), hex(&sg))
+}
+
 fn generate(rng: &mut Rng, i: u64, _n: u64) -> String {
     let h = |b: &[u8]| Bytes::Hex(b.to_vec()).raw();
-    match (i + rng.below(3)) % 20 {
+    match (i + rng.below(3)) % 23 {
         0 | 1 | 2 => format!("pkstr {}", h(key_string(rng).as_bytes())),
         3 => {
             let k = key_bytes(rng);
@@ -814,6 +1012,8 @@ fn generate(rng: &mut Rng, i: u64, _n: u64) -> String {
             let n = custom_len(rng);
             format!("cart {id} {}", Bytes::random(rng, n).raw())
         }
+        20 => gen_vsign(rng),
+        21 | 22 => gen_vraw(rng),
         17 | 18 => {
             let key = valid_key(rng);
             let n = rng.below(6);
